@@ -4,7 +4,7 @@ import numpy as np
 import vlib
 
 CLAIM = {
- "text": "Proof (Lean 4), partial: model = occupation filling from (n_electrons, spin) with Python's slice and floor-division semantics, the alternating -> up-then-down conversion, Jordan-Wigner (identity on the vector) and vector -> X gates. Proved: for every mode and every register size the encoded Jordan-Wigner number operator a_j^dagger a_j acts on a basis state as multiplication by its occupation bit (from the C03 intertwining theorems), so a circuit of X gates on the occupied positions has expectation exactly 1 / 0; X gates on distinct qubits prepare exactly the basis state of the vector; the filled vector has the requested numbers of alpha and beta electrons for every admissible (n_electrons, spin) with even n <= 10 (a finite table checked by the kernel - labelled as a test of the model, not the unbounded claim; beyond it the exhaustive evaluation below applies); the ordering conversion preserves the length and, by the C03 theorem on the re-indexing map, is a permutation of the modes. The Bravyi-Kitaev, scBK and JKMN vector transforms (openfermion Fenwick tree / ternary tree) are NOT modelled: for them the property itself is evaluated exhaustively on the real code - every (n_electrons, spin) and every occupation vector for n <= 6 (8 thorough), both orderings: <v| encoded n_i |v> is exactly the requested occupation.",
+ "text": "Proof (Lean 4), partial: model = occupation filling from (n_electrons, spin) with Python's slice and floor-division semantics, the alternating -> up-then-down conversion, Jordan-Wigner (identity on the vector) and vector -> X gates. Proved: for every mode and every register size the encoded Jordan-Wigner number operator a_j^dagger a_j acts on a basis state as multiplication by its occupation bit (from the C03 intertwining theorems), so a circuit of X gates on the occupied positions has expectation exactly 1 / 0; X gates on distinct qubits prepare exactly the basis state of the vector; the filling rule for EVERY register size: with spin != 0, matching parity and non-negative n_alpha, n_beta, position i is occupied exactly when it is one of the lowest n_alpha even (alpha) or n_beta odd (beta) positions (Python slice assignment with stride 2 and clipped stop, floor division), and with spin absent or 0 exactly the first n_electrons positions are occupied (a finite table for n <= 10 is kept as an additional kernel-checked test); the ordering conversion preserves the length and, by the C03 theorem on the re-indexing map, is a permutation of the modes. The Bravyi-Kitaev, scBK and JKMN vector transforms (openfermion Fenwick tree / ternary tree) are NOT modelled: for them the property itself is evaluated exhaustively on the real code - every (n_electrons, spin) and every occupation vector for n <= 6 (8 thorough), both orderings: <v| encoded n_i |v> is exactly the requested occupation.",
  "note": "Trusted: Lean kernel + standard axioms; fermion_to_qubit_mapping for BK/scBK/JKMN number operators (C03 oracle). The expectation of a Pauli sum on a computational basis state is evaluated exactly (Z-only words).",
  "technique": "Lean 4 theorems for the Jordan-Wigner path + exhaustive evaluation of the property on the real code for the other encodings"}
 
